@@ -38,6 +38,17 @@ FRAGS = ["<", ">", "&", "\"", "'", "<script>alert(1)</script>", "</TT><script>",
          "\\074script\\076", "\\042\\076", "\\g<0>", "\\1", "\\n", "\\d", "%s", "%(x)s", "{0}", "{x}"]
 payload_st = st.lists(st.sampled_from(FRAGS), min_size=1, max_size=4).map("".join)
 
+
+def _pq(p, enc):
+    """one payload in four arrives already percent-encoded (once or twice): whatever decodes it on the way to the page has
+    to do so BEFORE the page's escaping, not after it"""
+    if enc >= 1:
+        p = urllib.parse.quote(p, safe="", encoding="latin-1")
+    if enc >= 2:
+        p = urllib.parse.quote(p, safe="")
+    return p
+
+
 POSITIONS = ["noname-path", "noname-remote-path", "selector-error", "url-redirect", "filename", "dirname", "html-title", "subject", "abstract-sidecar",
              "linkfile-name", "linkfile-abstract", "linkfile-path", "linkfile-urlpath", "linkfile-host", "map-desc", "map-sel",
              "map-url", "map-host", "wap-text", "search-item-path", "keywords-sidecar",
@@ -57,7 +68,8 @@ def _case(draw):
         forms = ["wap", "waphdr"]
     if pos == "dir-search":
         forms = ["http", "https", "wap", "waphdr"]
-    return {"pos": pos, "payload": draw(payload_st), "form": draw(st.sampled_from(forms)), "n": draw(st.integers(0, 999)),
+    return {"pos": pos, "payload": _pq(draw(payload_st), draw(st.sampled_from([0, 0, 0, 0, 0, 0, 1, 2]))),
+            "form": draw(st.sampled_from(forms)), "n": draw(st.integers(0, 999)),
             "fill": draw(st.sampled_from([0, 0, 13]))}
 
 
@@ -78,6 +90,8 @@ def _fit(pos, p, fam):
         p = p.strip()
         if p in ("", ".", "..") or ".." in p or "./" in p or p.startswith(".") or p.endswith(".") or p.endswith("~"):
             return None
+        if len(p) > 200:
+            return None  # a file name holds 255 bytes
         dec = p.encode("latin-1").decode("utf-8", "surrogateescape")
         if dec != dec.strip():
             return None
